@@ -52,7 +52,9 @@ struct VfRun {
   explicit VfRun(const Plan &p) : plan(p) {}
 
   // streams whose audio is not granule-consistent with the reference model: page damage, or the 64-sample-block header rewrite
-  bool inexact() const { return sr.damaged || sr.ambiguous_cut; }
+  // (the bundled encoder cannot emit 64-sample short blocks; the header-rewritten link decodes safely but its granule positions do not
+  //  match its audio, so nothing position-exact is demanded of it - see DESIGN C20)
+  bool inexact() const { return sr.damaged || sr.ambiguous_cut || sr.has_bs64; }
   // ---- verdicts
   bool mine(std::initializer_list<const char *> props) { for (auto p : props) if (prop == p) return true; return false; }
   [[noreturn]] void fail(const std::string &site, const std::string &sym, const std::string &detail, std::map<std::string, std::string> facts = {}) {
@@ -452,8 +454,17 @@ void VfRun::halfrate_op(Handle &H, const Rec &op) {
   int64_t t1 = ov_pcm_tell(H.vf); int p = ov_halfrate_p(H.vf);
   h.i64(ret); h.i64(t1); h.i64(p);
   H.hr_touched = true;
+  H.obs.i64(t1); H.obs.i64(p);
   if (sr.damaged || H.io_dirty) { check(ret == 0 || documented_code(ret), {"C03", "C12"}, "ov_halfrate", "undocumented-return", fmt("ret=%ld", ret)); H.hr = p > 0; return; }
   std::initializer_list<const char *> P = {"C20"};
+  if (sr.has_bs64 && H.seekable) {
+    // refusal clause, decided by a twin: the refused call must leave the handle exactly as a no-op toggle (ov_halfrate(vf,0) on a
+    // full-rate handle: dump the decoder, re-seek to the same position) leaves its twin; the caller compares the observation hashes
+    if (flag) { check(ret != 0, P, "ov_halfrate", "not-refused-with-64-sample-blocks", fmt("ret=%ld", ret)); g_stats.inc("probe.halfrate_refused"); }
+    else check(ret == 0, P, "ov_halfrate", "toggle-failed", fmt("flag=0 ret=%ld", ret));
+    check(p == 0, P, "ov_halfrate", "flag-set-after-refusal", fmt("halfrate_p=%d", p));
+    H.hr = 0; return;
+  }
   // a streaming handle only knows the link it is in
   bool must_refuse = H.seekable ? sr.has_bs64 : (H.lin_link < sr.nlinks && sr.ps.links[std::min(H.lin_link, sr.nlinks - 1)]->r.bs64);
   if (flag && must_refuse) {
@@ -466,8 +477,11 @@ void VfRun::halfrate_op(Handle &H, const Rec &op) {
   check(ret == 0, P, "ov_halfrate", "toggle-failed", fmt("flag=%d ret=%ld", flag, ret));
   check(p == (flag ? 1 : 0), P, "ov_halfrate", "flag-mismatch", fmt("flag=%d p=%d", flag, p));
   if (H.seekable && ret == 0) {
-    int64_t exp_even = (t0 >> 1) << 1; int l = sr.link_of(std::min(t0, std::max<int64_t>(0, sr.total - 1))); int64_t e1 = sr.start[l] + (((t0 - sr.start[l]) >> 1) << 1);
-    check(t1 == t0 || (flag && (t1 == exp_even || t1 == e1)), P, "ov_halfrate", "toggle-moved-position", fmt("%lld->%lld flag=%d", (long long)t0, (long long)t1, flag));
+    // the toggle re-seeks to the current position, clamped to the total (past an odd end the half-rate position is total+1); at half
+    // rate that seek lands on the even position at or below it (relative to the link start, or globally - both accepted, see DESIGN)
+    int64_t tq = std::min(t0, sr.total);
+    int64_t exp_even = (tq >> 1) << 1; int l = sr.link_of(std::min(tq, std::max<int64_t>(0, sr.total - 1))); int64_t e1 = sr.start[l] + (((tq - sr.start[l]) >> 1) << 1);
+    check(t1 == t0 || t1 == tq || (flag && (t1 == exp_even || t1 == e1)), P, "ov_halfrate", "toggle-moved-position", fmt("%lld->%lld flag=%d", (long long)t0, (long long)t1, flag));
   }
   H.hr = flag ? 1 : 0; g_stats.inc(flag ? "probe.halfrate_on" : "probe.halfrate_off");
 }
